@@ -292,10 +292,12 @@ Definition run_src (P : prog) (n0 : Z) : oc * sst :=
 (* what the driver does between REPL inputs: run_with_vm_and_opt starts with vm.clear_frames();
    no_gc_depth is not touched, neither after Ok nor after Err *)
 Definition driver_next_depth (o : oc) (st : vst) : N := v_depth st.
-Fixpoint session (ord : ret_order) (inl : bool) (inputs : list (prog * Z)) (d : N) : list (oc * N) :=
+Fixpoint session_with (run : prog -> Z -> N -> oc * vst) (inputs : list (prog * Z)) (d : N) : list (oc * N) :=
   match inputs with
   | [] => []
   | (P, n0) :: r =>
-      let (o, st) := run_vm ord inl P n0 d in
-      (o, driver_next_depth o st) :: session ord inl r (driver_next_depth o st)
+      let o := fst (run P n0 d) in
+      let d' := driver_next_depth o (snd (run P n0 d)) in
+      (o, d') :: session_with run r d'
   end.
+Definition session (ord : ret_order) (inl : bool) := session_with (run_vm ord inl).
